@@ -384,19 +384,21 @@ def run_style_cases(run, stream, tag, cases, base_entries, with_spec, per_file=N
         run.oblige('corr:' + stream, False, str(exc))
         return 0
     run.stream_info(stream, impl_s=round(t1 - t0, 1), coq_s=round(time.time() - t1, 1), coq_cases=len(coq))
-    mism, nq, sigs, unclassified = [], 0, {}, []
+    labels = sorted({c.get('stream', stream) for c, _ in owner} | {stream})
+    mism, nqs, sigs, unclassified = {l: [] for l in labels}, {l: 0 for l in labels}, {}, []
     base_names = [k for k, _ in base_entries]
     for (c, k), r in zip(owner, res):
-        nq += min(CHUNK, len(c['queries']) - k)
+        label = c.get('stream', stream)
+        nqs[label] += min(CHUNK, len(c['queries']) - k)
         mask, idx = r % 4, r // 4
         if mask == 0:
             continue
         i0, i1 = idx // 64, idx % 64
         def data_of(i):
-            return {'stream': stream, 'css': c.get('css'), 'raw': c.get('raw'), 'use_ua': c.get('use_ua', True),
+            return {'stream': label, 'css': c.get('css'), 'raw': c.get('raw'), 'use_ua': c.get('use_ua', True),
                     'user': c['user'], 'query': c['queries'][k + i - 1], 'impl': c['outs'][k + i - 1], 'via': impl_fn}
         if mask & 1 and i0:
-            mism.append(data_of(i0))
+            mism[label].append(data_of(i0))
         if mask & 2 and i1:
             data = data_of(i1)
             sig = classify(c['user'], data['query'], data['impl'], base_names)
@@ -404,13 +406,18 @@ def run_style_cases(run, stream, tag, cases, base_entries, with_spec, per_file=N
                 unclassified.append(data)
             elif sig not in sigs:
                 sigs[sig] = data
-    run.oblige('corr:%s(model = counters.py, strings compared)' % stream, not mism,
-               'first disagreements: %s' % json.dumps(mism[:2])[:3000])
-    for sig, data in list(sigs.items()) + [(None, d) for d in unclassified[:2]]:
+    for l in labels:
+        run.oblige('corr:%s(model = counters.py, strings compared)' % l, not mism[l],
+                   'first disagreements: %s' % json.dumps(mism[l][:2])[:3000])
+    # one unclassified failing input per stream label first, so that every stream that finds one reports it
+    first_per_label = {}
+    for d in unclassified:
+        first_per_label.setdefault(d['stream'], d)
+    for sig, data in list(sigs.items()) + [(None, d) for d in first_per_label.values()]:
         what = WHAT.get(sig, 'counter representation differs from CSS Counter Styles 3 (%s)' % via)
         run.fail('%s: %s(%s) printed %r' % (what, data['query'][1], data['query'][2], data['impl']), data,
                  signature=sig)
-    return nq
+    return nqs if len(labels) > 1 else nqs[stream]
 
 
 # ------------------------------------------------------- pad x negative, systematically (direct and rendered)
@@ -474,18 +481,19 @@ def gen_padneg_case(rng, nvalues):
             'negative': [pre, suf], 'pad': [k0, padsym]}
 
 
+PADNEG_RULE = ('per case one clean style (numeric, alphabetic, symbolic, additive; cyclic and fixed where the sign '
+               'does not apply) with negative prefix AND suffix (1-3 characters, empty ones sometimes) and ten copies '
+               'with consecutive pad values (pad symbol 1 or 2 characters or empty), values -1 -2 -9 -10 -11 -100, '
+               'the range minimum and its neighbours, 0 1 10 and random ones: pad = natural length -1 / +0 / +1 '
+               'occurs for each; render_value and render_marker called directly')
+
+
+def padneg_direct_cases(rng, thorough):
+    return [dict(gen_padneg_case(rng, 16), stream='pad-negative-direct') for _ in range(240 if thorough else 30)]
+
+
 def padneg_streams(run, rng, ua, thorough):
-    cases = [gen_padneg_case(rng, 16) for _ in range(240 if thorough else 36)]
-    n = run_style_cases(run, 'pad-negative-direct', 'c15pn', cases, ua, True)
-    run.count('pad-negative-direct', n, [c['css'] for c in cases], samples=[cases[0]['css'][:400]])
-    run.stream_info('pad-negative-direct', systems=sorted({c['system'] for c in cases}),
-                    two_part_negatives=sum(1 for c in cases if c['negative'][0] and c['negative'][1]),
-                    rule='per case one clean style (numeric, alphabetic, symbolic, additive; cyclic and fixed where the sign '
-                         'does not apply) with negative prefix AND suffix (1-3 characters, empty ones sometimes) and ten copies '
-                         'with consecutive pad values (pad symbol 1 or 2 characters or empty), values -1 -2 -9 -10 -11 -100, '
-                         'the range minimum and its neighbours, 0 1 10 and random ones: pad = natural length -1 / +0 / +1 '
-                         'occurs for each; render_value and render_marker called directly')
-    cases = [gen_padneg_case(rng, 6) for _ in range(160 if thorough else 24)]
+    cases = [gen_padneg_case(rng, 6) for _ in range(160 if thorough else 20)]
     for i in range(0, len(cases), 4):                 # every fourth document uses the wide random rules instead
         cases[i] = dict(gen_css_case(rng, odd=False), system='random')
         cases[i]['queries'] = [qu for qu in cases[i]['queries'] if qu[1] != 'nosuch'][:90]
@@ -928,7 +936,15 @@ def check(run):
     cases = [{'css': c['css'], 'use_ua': True, 'queries': c['queries'], 'odd': False} for c in load_corpus('css')]
     cases += [gen_css_case(rng, odd=(i % 3 == 2)) for i in range(ncss)]
     cases += [gen_anon_case(rng) for _ in range(ncss // 10)]
-    n = run_style_cases(run, 'random-counter-style', 'c15cs', cases, ua, True)
+    pn = padneg_direct_cases(rng, thorough)
+    ns = run_style_cases(run, 'random-counter-style', 'c15cs', cases + pn, ua, True)
+    if not isinstance(ns, dict):
+        ns = {'random-counter-style': 0, 'pad-negative-direct': 0}
+    n = ns['random-counter-style']
+    run.count('pad-negative-direct', ns['pad-negative-direct'], [c['css'] for c in pn], samples=[pn[0]['css'][:400]])
+    run.stream_info('pad-negative-direct', systems=sorted({c['system'] for c in pn}),
+                    two_part_negatives=sum(1 for c in pn if c['negative'][0] and c['negative'][1]),
+                    evaluated_with='random-counter-style (same worker pool and Coq shards)', rule=PADNEG_RULE)
     run.count('random-counter-style', n, [c['css'] for c in cases], samples=[cases[-20]['css'], cases[-22]['css']])
     run.stream_info('random-counter-style',
                     rule='1-5 @counter-style rules per case (all systems, extends chains and cycles, range lists, '
